@@ -102,6 +102,18 @@ static void case_history(const Args &a, long idx, bool wantDesc, CaseResult &res
     };
 
     // ---- initial scene
+    // sometimes an endpoint starts walled in by a closed frame of four overlapping bars (no path: the documented straight-line fallback);
+    // once a later transaction opens the frame the connector has to be routed properly, like the fresh router does
+    bool walled = !orth && R.coin(0.12);
+    if (walled) {
+        IP p{R.ri(110, 290), R.ri(110, 290)}; ll a = R.ri(15, 40), t = R.ri(6, 14);
+        IPoly bars[4] = {rectPoly(p.x - a - t, p.y - a - t, p.x - a, p.y + a + t), rectPoly(p.x + a, p.y - a - t, p.x + a + t, p.y + a + t), rectPoly(p.x - a - t, p.y - a - t, p.x + a + t, p.y - a), rectPoly(p.x - a - t, p.y + a, p.x + a + t, p.y + a + t)};
+        for (auto &pl : bars) { Avoid::Polygon pg = toPolygon(pl); int id = nextId++; shapes[id] = LiveShape{pl, true, new Avoid::ShapeRef(router, pg)}; hist.raw(JObj().str("op", "addShape").i("id", id).raw("poly", polyj(pl)).str("note", "bar of a closed frame").done()); D.i(1); for (auto &q : pl) { D.i(q.x); D.i(q.y); } }
+        IP q; for (int tr = 0; tr < 100; tr++) { q = IP{R.ri(0, 400), R.ri(0, 400)}; if (std::llabs(q.x - p.x) > a + t + 5 || std::llabs(q.y - p.y) > a + t + 5) break; }
+        Avoid::ConnRef *cr = new Avoid::ConnRef(router, Avoid::ConnEnd(Avoid::Point((double)p.x, (double)p.y)), Avoid::ConnEnd(Avoid::Point((double)q.x, (double)q.y))); cr->setRoutingType(Avoid::ConnType_PolyLine);
+        conns.push_back(LiveConn{p, q, cr}); hist.raw(JObj().str("op", "addConnector").raw("src", ipj(p)).raw("dst", ipj(q)).str("note", "source inside the frame").done()); D.i(2); D.i(p.x); D.i(p.y); D.i(q.x); D.i(q.y);
+        res.count("histories_starting_with_a_walled_in_endpoint");
+    }
     int ns = (int)R.ri(2, 9); for (int i = 0; i < ns; i++) addShape();
     int nc = (int)R.ri(1, 4); for (int c = 0; c < nc; c++) addConn();
     if (conns.empty()) { res.inconclusive = "no-connectors"; return; }
